@@ -22,6 +22,7 @@ from typing import TYPE_CHECKING, Any
 #
 import asimap.trace
 from asimap.generator import get_msg_size, msg_as_bytes, msg_headers_as_bytes
+from asimap.parse import IMAPClientCommand, IMAPCommand
 from asimap.pop3_parse import BadPOP3Command, parse_pop3_command
 from asimap.trace import trace
 
@@ -457,11 +458,19 @@ class POP3CommandHandler:
             uids_to_delete = [
                 self.snapshot_uids[n - 1] for n in sorted(self.deleted)
             ]
+            # The expunge takes its turn in the mailbox's command queue like
+            # the removal phase of an IMAP MOVE (it removes messages no matter
+            # what their flags are, so it must have the mailbox to itself):
+            # IMAP sessions may be in the middle of a command on the inbox.
+            #
+            expunge_cmd = IMAPClientCommand("POP3 EXPUNGE")
+            expunge_cmd.command = IMAPCommand.MOVE
             try:
-                await self.mbox.expunge(
-                    uid_msg_set=uids_to_delete,
-                    check_deleted=False,
-                )
+                async with expunge_cmd.ready_and_okay(self.mbox):
+                    await self.mbox.expunge(
+                        uid_msg_set=uids_to_delete,
+                        check_deleted=False,
+                    )
             except Exception:
                 logger.exception("Error expunging messages on POP3 QUIT")
                 await self.client.push(
